@@ -261,8 +261,8 @@ class StmtMixin:
             if cur is None:
                 raise EngineError('bare raise outside handler')
             return [(raise_out(cur), st)]
-        if s.cause is not None:
-            raise EngineError('raise ... from')
+        # `raise X from Y`: the cause only sets __cause__ on X (no effect on control flow or on which exception propagates);
+        # Y is evaluated for its (side-effect free) value and otherwise ignored
 
         def fin(v, s1):
             v = self.unwrap_opt(v, s1, 'raise', s.lineno)
